@@ -8,7 +8,8 @@ import time
 from .build import VERIF
 
 MAX_SAMPLES = 12
-MAX_VIOLATIONS_KEPT = 40
+MAX_VIOLATIONS_KEPT = 400
+MAX_PER_CLASS = 6
 
 
 def h64(*parts):
@@ -61,8 +62,11 @@ class ShardReport:
         """kind: short class name; key: the specific input / call site that identifies this
         violation (used for known-finding matching); replay: JSON-serialisable witness."""
         self.violation_count += 1
-        if len(self.violations) < MAX_VIOLATIONS_KEPT:
-            self.violations.append({"sig": "%s|%s" % (kind, key), "kind": kind,
+        cls = "%s|%s" % (kind, str(key).split(":")[0])
+        self.counters["violation_class:" + cls] += 1
+        if self.counters["violation_class:" + cls] <= MAX_PER_CLASS and \
+                len(self.violations) < MAX_VIOLATIONS_KEPT:
+            self.violations.append({"sig": "%s|%s" % (kind, key), "kind": kind, "cls": cls,
                                     "detail": detail, "replay": replay})
 
     def inconclusive_item(self, what):
@@ -80,9 +84,11 @@ class ShardReport:
             if len(self.samples) < MAX_SAMPLES:
                 self.samples.append(smp)
         self.violation_count += other.violation_count
+        have = collections.Counter(v.get("cls") for v in self.violations)
         for v in other.violations:
-            if len(self.violations) < MAX_VIOLATIONS_KEPT:
+            if len(self.violations) < MAX_VIOLATIONS_KEPT and have[v.get("cls")] < MAX_PER_CLASS:
                 self.violations.append(v)
+                have[v.get("cls")] += 1
         self.inconclusive.extend(other.inconclusive[:50 - len(self.inconclusive)])
         self.worker_deaths += other.worker_deaths
         self.ops += other.ops
@@ -128,9 +134,9 @@ def finalize(prop, tier, seed, rep, rule, level="exploration", assumptions=(), t
                        "kind": v["kind"], "detail": v["detail"], "replay": v["replay"]},
                       f, indent=1, ensure_ascii=True, default=str)
         replay_paths.append(path)
-        if n < 10:
+        if n < 60:
             lines.append("VIOLATION property=%s replay=%s" % (prop, path))
-            lines.append("  # %s: %s" % (v["kind"], str(v["detail"])[:300]))
+            lines.append("  # %s: %s" % (v.get("cls", v["kind"]), str(v["detail"])[:300]))
 
     floor_failures = []
     for name, minimum in (floors or {}).items():
